@@ -1,5 +1,6 @@
 (* CollectionsScripts.v — hand translation of the four LOOP-FREE script-implemented collection
-   commands, and of array_contains and set_from_array (one for-in loop each), into compositions of the native command models (Collections.v), as the alias-command
+   commands, and of array_contains, set_from_array, array_concat and map_contains_value (for-in
+   loops), into compositions of the native command models (Collections.v), as the alias-command
    wrapper (duckscript_sdk/src/types/command.rs AliasCommand::run) runs their script.ds:
 
      wrapper            fewer than `arguments_amount` arguments: Error "Invalid arguments provided."
@@ -12,8 +13,8 @@
                         is_defined scope::..::value
    An output variable assigned `None` is removed, so `${var}` then expands to the empty string and
    `is_defined var` is false.  `equals a b` is string equality (std/string/equals/mod.rs).
-   DEFINITIONS ONLY.  The three other scripts with for-in loops (array_concat, array_join,
-   map_contains_value) are not translated: correspondence run only. *)
+   DEFINITIONS ONLY.  array_join (string building, strlen / calc / substring) is not
+   translated: correspondence run only. *)
 From stdpp Require Import gmap list.
 From Coq Require Import NArith ZArith.
 Require Import DS.Collections.
@@ -154,10 +155,174 @@ Definition script_set_from_array (args : list str) (s : mstate) : outcome (cres 
   end.
 End SetFromArray.
 
-Definition step_script (rnd : nat -> handle) (c : cmd) (args : list str) (s : mstate)
-    : option (outcome (cres * mstate)) :=
+(* ---- array_concat (as the code behaves: the validation loop starts at the index a failed earlier
+        call left behind, see CollectionsSpec.concat_asis / finding F6) ----------------------------
+     for scope::..::arg in ${scope::..::arguments}
+         if not is_array ${scope::..::arg}
+             trigger_error "Invalid input, non array handle or array not found."
+         end
+     end
+     scope::..::array = array
+     for scope::..::arg in ${scope::..::arguments}
+         for scope::..::item in ${scope::..::arg}
+             array_push ${scope::..::array} ${scope::..::item}
+         end
+     end
+     set ${scope::..::array}
+   The loop over the argument array (a temporary list the wrapper builds) is a recursion over the
+   argument list. *)
+Section ArrayConcat.
+Variable rnd : nat -> handle.
+(* first loop: `if not is_array ${arg}` / trigger_error, resumed at [i] (see concat_asis) *)
+Fixpoint cc_validate (args : list str) (i : nat) (s : mstate) : option nat :=
+  match args with
+  | [] => None
+  | a :: r =>
+    match cmd_is_array [a] s with
+    | Done (Cont (Some t), _) => if str_eqb t s_true then cc_validate r (S i) s else Some i
+    | _ => Some i
+    end
+  end.
+(* `for item in ${arg}` / `array_push ${array} ${item}` *)
+Fixpoint cc_items (fuel : nat) (arg key : str) (it : nat) (s : mstate) : outcome (option ekind * mstate) :=
+  match fuel with
+  | O => Fuel
+  | S f =>
+    match next_iteration it arg (hs s) with
+    | None => Done (None, s)
+    | Some item =>
+      match cmd_array_push [key; item] s with
+      | Done (Cont _, s') => cc_items f arg key (S it) s'
+      | Done (Error e, s') => Done (Some e, s')
+      | Panic => Panic
+      | Fuel => Fuel
+      end
+    end
+  end.
+Definition cc_fuel (s : mstate) (a : str) : nat :=
+  match hs s !! a with Some (HList l) => S (S (length l)) | _ => 1 end.
+(* `for arg in ${arguments}` *)
+Fixpoint cc_args (args : list str) (key : str) (s : mstate) : outcome (option ekind * mstate) :=
+  match args with
+  | [] => Done (None, s)
+  | a :: r =>
+    match cc_items (cc_fuel s a) a key 0 s with
+    | Done (None, s') => cc_args r key s'
+    | other => other
+    end
+  end.
+Definition script_array_concat (args : list str) (s : mstate) : outcome (cres * mstate) :=
+  let start := default 0%nat (stale s) in
+  match cc_validate (drop start args) start s with
+  | Some j => Done (Error ETrigger, MS (hs s) (draws s) (Some (S j)))
+  | None =>
+    match cmd_array rnd [] (MS (hs s) (draws s) None) with
+    | Done (Cont (Some key), s1) =>
+      match cc_args args key s1 with
+      | Done (None, s2) => Done (Cont (Some key), s2)
+      | Done (Some e, s2) => Done (Error e, s2)
+      | Panic => Panic
+      | Fuel => Fuel
+      end
+    | other => other
+    end
+  end.
+End ArrayConcat.
+
+
+(* ---- map_contains_value ---------------------------------------------------------------------------
+     scope::..::found = set false
+     scope::..::not_empty = not map_is_empty ${scope::..::argument::1}
+     if ${scope::..::not_empty}
+         scope::..::value = set ${scope::..::argument::2}
+         scope::..::key_array_handle = map_keys ${scope::..::argument::1}
+         for scope::..::item in ${scope::..::key_array_handle}
+             scope::..::next_value = map_get ${scope::..::argument::1} ${scope::..::item}
+             scope::..::found = equals ${scope::..::next_value} ${scope::..::value}
+             if ${scope::..::found}
+                 release ${scope::..::key_array_handle}
+             end
+         end
+     end
+     release ${scope::..::key_array_handle}
+     set ${scope::..::found}
+   The key array is a temporary collection: it takes one draw of the key oracle and is released
+   before the command returns. *)
+Section MapContainsValue.
+Variable rnd : nat -> handle.
+Variable ord : nat -> list str -> list str.
+Fixpoint mcv_loop (fuel : nat) (a1 karr value : str) (it : nat) (found : bool) (s : mstate)
+    : outcome (option ekind * bool * mstate) :=
+  match fuel with
+  | O => Fuel
+  | S f =>
+    match next_iteration it karr (hs s) with
+    | None => Done (None, found, s)
+    | Some item =>
+      match cmd_map_get [a1; item] s with                       (* next_value = map_get ${map} ${item} *)
+      | Done (Cont nv, s1) =>
+        let found' := str_eqb (default [] nv) value in            (* found = equals ${next_value} ${value} *)
+        if found' then
+          match cmd_release [karr] s1 with                         (* if ${found} / release ${key_array_handle} *)
+          | Done (_, s2) => mcv_loop f a1 karr value (S it) found' s2
+          | Panic => Panic
+          | Fuel => Fuel
+          end
+        else mcv_loop f a1 karr value (S it) found' s1
+      | Done (Error e, s1) => Done (Some e, found, s1)
+      | Panic => Panic
+      | Fuel => Fuel
+      end
+    end
+  end.
+Definition script_map_contains_value (args : list str) (s : mstate) : outcome (cres * mstate) :=
+  match args with
+  | a1 :: a2 :: _ =>
+    match script_map_is_empty [a1] s with                        (* not_empty = not map_is_empty ${map} *)
+    | Done (Cont (Some t), s0) =>
+      if str_eqb t s_true then
+        (* the key array variable is undefined: `release ${key_array_handle}` is `release ""` *)
+        match cmd_release [[]] s0 with
+        | Done (_, s1) => Done (Cont (Some s_false), s1)
+        | Panic => Panic
+        | Fuel => Fuel
+        end
+      else
+        match cmd_map_keys rnd ord [a1] s0 with
+        | Done (Cont (Some karr), s1) =>
+          let n := match hs s1 !! karr with Some (HList l) => length l | _ => 0%nat end in
+          match mcv_loop (S (S n)) a1 karr a2 0 false s1 with
+          | Done (None, found, s2) =>
+            match cmd_release [karr] s2 with
+            | Done (_, s3) => Done (Cont (Some (bool_str found)), s3)
+            | Panic => Panic
+            | Fuel => Fuel
+            end
+          | Done (Some e, _, s2) => Done (Error e, s2)
+          | Panic => Panic
+          | Fuel => Fuel
+          end
+        | Done (Cont None, s1) => Done (Error EArgs, s1)          (* cannot happen *)
+        | Done (Error e, s1) => Done (Error e, s1)
+        | Panic => Panic
+        | Fuel => Fuel
+        end
+    | Done (Cont None, s0) => Done (Error EArgs, s0)              (* cannot happen *)
+    | Done (Error e, s0) => Done (Error e, s0)
+    | Panic => Panic
+    | Fuel => Fuel
+    end
+  | _ => Done (Error EArgs, s)
+  end.
+End MapContainsValue.
+
+
+Definition step_script (rnd : nat -> handle) (ord : nat -> list str -> list str) (c : cmd)
+    (args : list str) (s : mstate) : option (outcome (cres * mstate)) :=
   match c with
   | CSetFromArray => Some (script_set_from_array rnd args s)
+  | CArrayConcat => Some (script_array_concat rnd args s)
+  | CMapContainsValue => Some (script_map_contains_value rnd ord args s)
   | CArrayIsEmpty => Some (script_array_is_empty args s)
   | CMapIsEmpty => Some (script_map_is_empty args s)
   | CSetIsEmpty => Some (script_set_is_empty args s)
@@ -168,4 +333,7 @@ Definition step_script (rnd : nat -> handle) (c : cmd) (args : list str) (s : ms
 Definition loop_free_script (c : cmd) : bool :=
   match c with CArrayIsEmpty | CMapIsEmpty | CSetIsEmpty | CMapContainsKey => true | _ => false end.
 Definition translated_script (c : cmd) : bool :=
-  match c with CArrayContains | CSetFromArray => true | _ => loop_free_script c end.
+  match c with
+  | CArrayContains | CSetFromArray | CArrayConcat | CMapContainsValue => true
+  | _ => loop_free_script c
+  end.
